@@ -349,14 +349,15 @@ WITHDRAW_LABEL = b'\x80\x00\x00'
 WITHDRAW_LABEL_VALUE = 0x800000 >> 4  # 524288, what a decoder shifting by 4 reports
 
 
-def encode_labels(labels):
-    """RFC 8277: 20-bit label, 3 bits reserved (0), bottom-of-stack bit on the last entry."""
+def encode_labels(labels, tc=0):
+    """RFC 8277 / RFC 3032: 20-bit label, 3 bits traffic class (sent as 0, ignored on receipt; `tc` sets them for the
+    legal-variant checks), bottom-of-stack bit on the last entry."""
     if not isinstance(labels, (list, tuple)) or not labels:
         raise OutOfRange('label stack must be a non-empty list: %r' % (labels,))
     out = b''
     for i, lab in enumerate(labels):
         _uint(lab, 20, 'label')
-        out += struct.pack('!I', lab << 4 | (1 if i == len(labels) - 1 else 0))[1:]
+        out += struct.pack('!I', lab << 4 | (tc & 7) << 1 | (1 if i == len(labels) - 1 else 0))[1:]
     return out
 
 
@@ -926,7 +927,7 @@ def encode_nlri(afi, safi, items, withdraw=False, add_path=False, opts=None):
         for item in items:
             pid, item = _entry(item, on, opts, 'labeled entry')
             _need(item, ('prefix',) + (() if withdraw else ('label',)) + (('rd',) if safi == 128 else ()), 'labeled entry')
-            labels = WITHDRAW_LABEL if withdraw else encode_labels(item['label'])
+            labels = WITHDRAW_LABEL if withdraw else encode_labels(item['label'], (opts or {}).get('label_tc', 0))
             mid = labels + (encode_rd(item['rd']) if safi == 128 else b'')
             raw, plen = _split_prefix(item['prefix'], ver)
             bits = len(mid) * 8 + plen
